@@ -34,6 +34,12 @@ PROPS = {
         'quick': 20000,
         'thorough': 500000,
     },
+    'C17': {
+        'level': 'exploration',
+        'strata': [('triplets', 'tracer', 1.0)],
+        'quick': 16000,
+        'thorough': 400000,
+    },
 }
 
 COMPONENTS = {
